@@ -39,7 +39,7 @@ def dispatch(ex, callee, args):
 
 def deref(ex, v):
     while isinstance(v, (Ref, RefMut)):
-        v = v.v if isinstance(v, Ref) else ex.frames[v.depth][v.lid]
+        v = v.v if isinstance(v, Ref) else v.load(ex)
     return v
 
 
@@ -107,6 +107,23 @@ def m_checked_neg(ex, m, args):
     ty = m.group(1) or m.group(2)
     a = as_int(ex, args[0], ty)
     return checked(ex, t_neg(a.t), ty)
+
+
+@model(r"core::num::<impl (i8|i16|i32|i64|i128)>::(checked_add_unsigned|checked_sub_unsigned|saturating_add_unsigned|saturating_sub_unsigned)",
+       "core: {signed}::checked_add_unsigned / checked_sub_unsigned = exact x +/- u if it fits, else None; saturating_* clamp to the type's range")
+def m_signed_unsigned(ex, m, args):
+    ty = m.group(1)
+    a, b = as_int(ex, args[0], ty), as_int(ex, args[1], "u" + ty[1:])
+    exact = ex.name_term(t_add(a.t, b.t) if "add" in m.group(2) else t_sub(a.t, b.t), "su")
+    lo, hi = int_range(ty)
+    if m.group(2).startswith("checked"):
+        return mk_option(ex.in_range(exact, ty), I(exact, ty))
+    return I(t_ite(t_lt(hi, exact), hi, t_ite(t_lt(exact, lo), lo, exact)), ty)
+
+
+@model(r"anchor_lang::solana_program::log::sol_log(_\w+)?", "solana: sol_log (msg!) has no effect on the computation")
+def m_sol_log(ex, m, args):
+    return UNIT
 
 
 @model(rf"core::num::<impl ({INT})>::abs_diff", "core: {integer}::abs_diff = |a - b| (as the unsigned type)")
@@ -383,10 +400,15 @@ def m_res_ok(ex, m, args):
     return En("Option", t_ite(r.is_("Ok"), 1, 0), pl)
 
 
-@model(r"Result::<.*>::map_err::<.*>", "core: Result::map_err (closure body inlined from its MIR)")
+@model(r"Result::<.*>::map_err::<.*>", "core: Result::map_err (closure body inlined from its MIR; a `From::from` function item as mapper is total and its result opaque)")
 def m_map_err(ex, m, args):
     r = as_enum(ex, args[0], "Result")
     e = payload(r, "Err")
+    if isinstance(args[1], Opq) and args[1].d.startswith("fn item ") and "From<" in args[1].d:
+        pl = {"Err": (Opq("converted error"),)}
+        if payload(r, "Ok") is not None:
+            pl["Ok"] = (payload(r, "Ok"),)
+        return En("Result", r.tag, pl)
     save = ex.pc
     ex.pc = t_and(save, r.is_("Err"))
     ne = ex.call_closure(args[1], [e if e is not None else Opq("err")])
@@ -444,6 +466,18 @@ def m_opt_unwrap(ex, m, args):
     if p is None:
         return Opq("diverges")
     return p
+
+
+@model(r"Option::<.*>::get_or_insert", "core: Option::get_or_insert = keeps a present value, stores the given one otherwise; returns &mut to the payload")
+def m_get_or_insert(ex, m, args):
+    r = args[0]
+    if not isinstance(r, RefMut):
+        raise Unsupported("get_or_insert target is not a &mut place")
+    o = as_enum(ex, r, "Option")
+    old = payload(o, "Some")
+    new = args[1] if old is None else vite(o.is_("Some"), old, args[1])
+    r.store(ex, En("Option", 1, {"Some": (new,)}))
+    return RefMut(r.depth, r.lid, r.path + (("payload", "Some", 0),))
 
 
 @model(r"Option::<.*>::(is_some|is_none)", "core: Option::is_some / is_none")
@@ -514,7 +548,7 @@ def m_uint_div_assign(ex, m, args):
     a, b = as_int(ex, args[0], ty), as_int(ex, args[1], ty)
     ex.panic("panic: Uint division by zero", t_eq(b.t, 0))
     q, _ = ex.udivrem(a.t, b.t, "udiv")
-    ex.frames[args[0].depth][args[0].lid] = I(q, ty)
+    args[0].store(ex, I(q, ty))
     return UNIT
 
 
